@@ -163,3 +163,12 @@ func decodeOp(code, n int) (op, k int) {
 	}
 	return 3, 0
 }
+
+// vAgeLog advances the segment sequence counter as a long history would have
+// (sequence ids only grow and are never re-used; 64-bit): the next segment gets
+// sequence id 65536.
+func vAgeLog(db *DB) {
+	if db.datalog.maxSequenceID < 65535 {
+		db.datalog.maxSequenceID = 65535
+	}
+}
